@@ -6,6 +6,7 @@ import (
 	"encoding/json"
 	"fmt"
 	"math"
+	"strings"
 	"time"
 
 	"github.com/semafind/semadb/models"
@@ -40,6 +41,27 @@ func vectors(metric string) (stored [][]float32, queries [][]float32) {
 		}
 		stored = [][]float32{u(0), u(30), u(90), u(180), u(270), u(45)}
 		queries = [][]float32{u(10), u(100), u(225), {0, 0, 1, 0}}
+	case "euclidean96":
+		// 96 dimensions: beyond one 64-bit word of a binary quantiser.  Dimensions
+		// below 64 are centred on 0, those from 64 up on 100, so that a learned
+		// per-dimension threshold differs between dimension d and d-64.
+		mk := func(i int) []float32 {
+			v := make([]float32, 96)
+			for d := range v {
+				if d < 64 {
+					v[d] = float32((i*5+d*3)%7) - 3
+				} else {
+					v[d] = 100 + float32((i*3+d)%5) - 2
+				}
+			}
+			return v
+		}
+		for i := 0; i < 6; i++ {
+			stored = append(stored, mk(i))
+		}
+		for i := 6; i < 10; i++ {
+			queries = append(queries, mk(i))
+		}
 	default: // euclidean, dot: small lattice, exact in float32
 		stored = [][]float32{{0, 0, 0, 0}, {1, 0, 0, 0}, {0, 2, 0, 0}, {3, 3, 0, 0}, {-1, 0, 0, 2}, {1, 0, 0, 0.5}}
 		queries = [][]float32{{0, 0, 0, 0}, {1, 1, 0, 0}, {-2, 0.5, 0, 1}, {3, 3, 0, 0}}
@@ -50,6 +72,9 @@ func vectors(metric string) (stored [][]float32, queries [][]float32) {
 func dimOf(metric string) uint {
 	if metric == models.DistanceHaversine {
 		return 2
+	}
+	if metric == "euclidean96" {
+		return 96
 	}
 	return 4
 }
@@ -146,7 +171,7 @@ type quant struct {
 }
 
 func master(cfg *harness.Config, rep *harness.Report) {
-	rep.Rule = "breadth-first search over write histories (insert with and without the vector, move, duplicate position, remove/add the field, the same point twice in one update batch, delete, node-id reuse) x metric {euclidean, dot, cosine, haversine, hamming, jaccard} x quantiser {none, binary fixed threshold, binary learned (trigger 3), product (2x2, trigger 3)} x cache state {warm unlimited, reopened cold before every query, disabled, 1-byte limit}; after every batch 4 query vectors x limit {1,2,75} x weight {nil,0.5,-2,0} x pre-filter {none, subset, empty, partly vectorless}; each answer must be exactly the k nearest admissible points under the float64 definition of the index distance (ties at the cut either way)"
+	rep.Rule = "breadth-first search over write histories (insert with and without the vector, move, duplicate position, remove/add the field, the same point twice in one update batch, delete, node-id reuse) x metric {euclidean, dot, cosine, haversine, hamming, jaccard} x quantiser {none, binary fixed threshold, binary learned (trigger 3), product (2x2, trigger 3)}, plus 96-dimensional vectors with a learned binary quantiser (two words per vector, thresholds that differ between the words) x cache state {warm unlimited, reopened cold before every query, disabled, 1-byte limit}; after every batch 4 query vectors x limit {1,2,75} x weight {nil,0.5,-2,0} x pre-filter {none, subset, empty, partly vectorless}; each answer must be exactly the k nearest admissible points under the float64 definition of the index distance (ties at the cut either way)"
 	rep.Assumptions = []string{"product quantiser: trigger threshold 3 instead of the HTTP layer's minimum of 1000 (same code path, training reachable within the bound); 2 sub-vectors x 2 centroids; centroids and centroid ids are read back from the bucket (k-means starts from a random point) and checked for consistency, the quantised distance is then the definition", "a learned threshold is read back from the bucket, not predicted", "float32 rounding tolerance 1e-4 relative"}
 	p := pool.New(pool.Options{CPUsPerWorker: 2, JobTimeout: 60 * time.Second})
 	if cfg.Replay != "" {
@@ -167,7 +192,7 @@ func master(cfg *harness.Config, rep *harness.Report) {
 		metric string
 		q      quant
 	}
-	combos := []combo{{models.DistanceEuclidean, product}, {models.DistanceDot, product}, {models.DistanceCosine, product}, {models.DistanceEuclidean, none}, {models.DistanceHamming, none}, {models.DistanceJaccard, none}, {models.DistanceEuclidean, learned}, {models.DistanceCosine, none}, {models.DistanceDot, fixed}, {models.DistanceHaversine, none}}
+	combos := []combo{{"euclidean96", learned}, {models.DistanceEuclidean, product}, {models.DistanceDot, product}, {models.DistanceCosine, product}, {models.DistanceEuclidean, none}, {models.DistanceHamming, none}, {models.DistanceJaccard, none}, {models.DistanceEuclidean, learned}, {models.DistanceCosine, none}, {models.DistanceDot, fixed}, {models.DistanceHaversine, none}}
 	depth := 3
 	if !cfg.Quick() {
 		depth = 4
@@ -182,7 +207,7 @@ func master(cfg *harness.Config, rep *harness.Report) {
 	var specs []seqx.Spec
 	for _, c := range combos {
 		for _, cs := range caches {
-			schema := models.IndexSchema{prop: {Type: models.IndexTypeVectorFlat, VectorFlat: &models.IndexVectorFlatParameters{VectorSize: dimOf(c.metric), DistanceMetric: c.metric, Quantizer: c.q.q}}}
+			schema := models.IndexSchema{prop: {Type: models.IndexTypeVectorFlat, VectorFlat: &models.IndexVectorFlatParameters{VectorSize: dimOf(c.metric), DistanceMetric: strings.TrimSuffix(c.metric, "96"), Quantizer: c.q.q}}}
 			cc := cfgT{Inst: sl.InstCfg{Backend: "bbolt", CacheSize: cs.size, ReopenEachOp: cs.reopen, Schema: schema, Proxy: true}, Metric: c.metric}
 			specs = append(specs, seqx.Spec{Name: fmt.Sprintf("%s/%s/%s", c.metric, c.q.name, cs.name), Cfg: cc, Alphabet: symbols(c.metric).Refs(), Depth: depth, Dedup: cs.dedup})
 		}
